@@ -30,5 +30,7 @@ def main(tier="quick", seed=0, procs=None, only=None):
     if only:
         cases = [c for c in cases if only in c.name]
         run.extra["filtered_only"] = only
+    from ..catalog import canaries
+    cases = cases + canaries.tensor_canaries()
     run_catalogue(run, cases, seed=seed, procs=procs)
     return run.finish()
